@@ -132,6 +132,12 @@ func (j *J) print(sb *strings.Builder, st *Style) {
 		sb.WriteString(ws(st) + "]")
 	case "obj":
 		ms := j.Members
+		if j.Ty != nil && j.Ty.Class == "any" && st != nil && st.Shuffle {
+			// the value of an any is stored as text: member order inside it is significant
+			st2 := *st
+			st2.Shuffle = false
+			st = &st2
+		}
 		if st != nil && st.Shuffle && st.R != nil && len(ms) > 1 {
 			ms = append([]*Member(nil), ms...)
 			for i := len(ms) - 1; i > 0; i-- {
@@ -164,6 +170,9 @@ type Gen struct {
 	PropChance int
 	// AnyTypes are type names to use in "!type" of any-values
 	AnyTypes []string
+	// Budget bounds the number of values generated for one document (0: 150)
+	Budget int
+	used   int
 }
 
 func NewGen(r *vh.Rand, env *Env) *Gen {
@@ -171,7 +180,13 @@ func NewGen(r *vh.Rand, env *Env) *Gen {
 }
 
 // Root generates a document for the root schema.
-func (g *Gen) Root() *J { return g.Container(g.Env.Lookup(g.Env.Root), 0) }
+func (g *Gen) Root() *J {
+	g.used = 0
+	if g.Budget == 0 {
+		g.Budget = 150
+	}
+	return g.Container(g.Env.Lookup(g.Env.Root), 0)
+}
 
 func (g *Gen) Container(s *Schema, depth int) *J {
 	switch s.Class {
@@ -198,11 +213,23 @@ func (g *Gen) Object(s *Schema, depth int) *J {
 	o.Schema = s
 	for _, p := range s.Props {
 		chance := g.PropChance
-		if depth >= g.MaxDepth && g.heavy(p.Ty) {
+		if (depth >= g.MaxDepth || g.used > g.Budget) && g.heavy(p.Ty) {
 			continue
+		}
+		if g.used > 2*g.Budget {
+			break
+		}
+		if g.Canonical && p.Ty.Class == "any" && p.Ty.PB {
+			continue // google.protobuf.Any needs the WithProtoToAny codec option
 		}
 		if depth > 0 {
 			chance = chance * 3 / 2
+			if n := len(s.Props); n > 12 {
+				chance = chance * 12 / n
+				if chance < 2 {
+					chance = 2
+				}
+			}
 		}
 		if !g.R.Chance(chance) {
 			continue
@@ -267,6 +294,7 @@ func (g *Gen) Oneof(s *Schema, depth int) *J {
 }
 
 func (g *Gen) Value(t *Ty, depth int) *J {
+	g.used++
 	var j *J
 	switch t.Class {
 	case "scalar":
@@ -464,7 +492,14 @@ func (g *Gen) Scalar(k Kind) *J {
 		return Str(fmt.Sprintf("%04d-%02d-%02d", y, m, d))
 	case "KDecimal":
 		var lit string
-		switch g.R.Intn(4) {
+		pick := g.R.Intn(4)
+		if g.Canonical && pick == 0 {
+			pick = 1
+			if g.R.Bool() {
+				return Str(vh.Pick(g.R, []string{"0", "1.50", "-0.001", "100", "123456789012345678901234567890.123456789", "-7"}))
+			}
+		}
+		switch pick {
 		case 0:
 			lit = vh.Pick(g.R, []string{"0", "1.50", "-0.001", "100", "123456789012345678901234567890.123456789", "1e3", "-1E-2", ".5", "5."})
 		default:
@@ -485,7 +520,9 @@ func (g *Gen) Scalar(k Kind) *J {
 		}
 		if !g.Canonical && g.R.Chance(40) {
 			off := g.R.Range(-14*60, 14*60) * 60
-			t = t.In(time.FixedZone("", off))
+			if l := t.In(time.FixedZone("", off)); l.Year() >= 1 && l.Year() <= 9999 {
+				t = l
+			}
 		}
 		return Str(t.Format(time.RFC3339Nano))
 	}
